@@ -374,6 +374,10 @@ theorem c07_x_repairs_seen : SV.C07.fx = true ∧ SV.C07.cfg.allLast = true ∧ 
 inside the slice (`activeTokenProvider.GetToken` indexes it) -/
 theorem c07_x_token_provider_order : tokenProviderOrder = ["GetTIDsByField", "tidToVal"] := by decide
 
+/-- the reader's `inverseLIDs` is the model's filter "LID is in the mapping" only because a slot of the inverser array
+that `newInverser` did not write reads 0: the array is carved from a recycled pool buffer and must be zeroed first -/
+theorem c07_x_inverser_zeroed : inverserSliceOrder = ["bytespool.AcquireLen", "unsafe.Slice", "clear"] := by decide
+
 /-- ownership at the enqueue boundary: `Active.Append` only QUEUES the metas for the index worker (`wNew` happens after
 `Bulk` returned), so the in-memory client, whose caller reuses its buffer, must hand over a private copy -/
 theorem c07_x_bulk_owns_metas : inMemoryBulkOrder = ["in.Metas=slices.Clone(in.Metas)", "store.Bulk"] := by decide
